@@ -268,6 +268,10 @@ class Extractor:
                 edits += self._d6(toks, it, shape, key)
             elif a0 == "d7":
                 edits += self._d7(toks, it, anchor.split()[1], key)
+            elif a0 == "d11":
+                edits += self._d11(toks, it, int(anchor.split()[1]), text, key)
+            elif a0 == "d12":
+                edits += self._d12(toks, it, shape, key)
             elif a0 == "pub":
                 pass
             else:
@@ -439,6 +443,127 @@ class Extractor:
             raise LostAnchor("%s: D6 found no `for x in &E` loop" % key)
         self.log.append("D6 %s: %d `for .. in &E` loop(s) -> `E.iter()` with named ghost iterator" % (key, n))
         return edits
+
+    def _d12(self, toks, it, shape, key):
+        """`for p in &mut E { B }` -> `let mut itK: usize = 0; while itK < E.len() { let p = &mut E[itK]; B itK += 1; }`
+        (K = ordinal of the loop): the body of `impl IntoIterator for &mut SmallVec` (a slice
+        `iter_mut()`) written as the index loop it stands for; invariants go to the usual `loop K` anchors."""
+        edits, n = [], 0
+        for k, (kw, o, c) in enumerate(shape.loops, 1):
+            if toks[kw].text != "for":
+                continue
+            j = kw
+            while not (toks[j].kind == "ident" and toks[j].text == "in"):
+                j += 1
+            pat = "".join(t.text for t in toks[kw + 1:j]).strip()
+            a = rustlex._next_sig_idx(toks, j)
+            if toks[a].text != "&":
+                continue
+            b = rustlex._next_sig_idx(toks, a)
+            if not (toks[b].kind == "ident" and toks[b].text == "mut"):
+                continue
+            e = o - 1
+            while toks[e].kind in ("ws", "comment"):
+                e -= 1
+            first = rustlex._next_sig_idx(toks, b)
+            recv = "".join(t.text for t in toks[first:e + 1]).strip()
+            if not re.fullmatch(r"\w+", pat):
+                raise LostAnchor("%s: D12 supports a plain identifier pattern only, found `%s`" % (key, pat))
+            edits.append((toks[kw].start, toks[e].end, "let mut it%d: usize = 0; // D12\n while it%d < %s.len()" % (k, k, recv), 0))
+            edits.append((toks[o].end, toks[o].end, " let %s = &mut %s[it%d]; // D12\n" % (pat, recv, k), -5))
+            edits.append((toks[c].start, toks[c].start, " it%d += 1; // D12\n" % k, 100000))
+            n += 1
+        if not n:
+            raise LostAnchor("%s: D12 found no `for x in &mut E` loop" % key)
+        self.log.append("D12 %s: %d `for x in &mut E` loop(s) -> index loop over `&mut E[i]`" % (key, n))
+        return edits
+
+    def _d11(self, toks, it, ordinal, text, key):
+        """The `ordinal`-th `RECV.iter().all(|p| B)` / `.any(|p| B)` of the function is hoisted in front of
+        the statement it occurs in as
+            let mut d11_K = true|false; let mut d11_K_i: usize = 0;
+            while d11_K_i < RECV.len() <splice text: invariant / decreases> { let p = &RECV[d11_K_i]; if !(B) { d11_K = false; } d11_K_i += 1; }
+        and the expression is replaced by `d11_K`.  Valid for closures that only read (no early
+        exit is needed then); the short-circuit of an enclosing `&&` / `||` is dropped likewise."""
+        found = []
+        j = it.body_open + 1
+        while j < it.body_close:
+            t = toks[j]
+            if t.kind == "ident" and t.text in ("all", "any"):
+                # pattern: . iter ( ) . all ( | p | BODY )
+                sig = []
+                q = j
+                for _ in range(5):
+                    q = rustlex._prev_sig_idx(toks, q)
+                    sig.append(q)
+                texts = [toks[x].text for x in sig]
+                if texts == [".", ")", "(", "iter", "."]:
+                    found.append((j, sig[-1]))
+            j += 1
+        if ordinal > len(found):
+            raise LostAnchor("%s: D11 found %d `.iter().all/any(..)`, wanted number %d" % (key, len(found), ordinal))
+        j, dot = found[ordinal - 1]
+        kind = toks[j].text
+        # receiver: the path expression before `.iter`: idents, `.`, `[..]`, `self`
+        r = rustlex._prev_sig_idx(toks, dot)
+        start = r
+        while True:
+            if toks[start].text == "]":
+                # skip back over the index expression
+                depth = 0
+                while True:
+                    if toks[start].text == "]":
+                        depth += 1
+                    elif toks[start].text == "[":
+                        depth -= 1
+                        if depth == 0:
+                            break
+                    start -= 1
+                pv = rustlex._prev_sig_idx(toks, start)
+                start = pv
+                continue
+            pv = rustlex._prev_sig_idx(toks, start)
+            if toks[pv].text == ".":
+                start = rustlex._prev_sig_idx(toks, pv)
+                continue
+            break
+        recv = "".join(t.text for t in toks[start:r + 1]).strip()
+        op = rustlex._next_sig_idx(toks, j)
+        if toks[op].text != "(":
+            raise LostAnchor("%s: D11: `(` expected after `%s`" % (key, kind))
+        cl = rustlex.match_close(toks, op)
+        b1 = rustlex._next_sig_idx(toks, op)
+        pn = rustlex._next_sig_idx(toks, b1)
+        b2 = rustlex._next_sig_idx(toks, pn)
+        if toks[b1].text != "|" or toks[b2].text != "|" or toks[pn].kind != "ident":
+            raise LostAnchor("%s: D11 supports closures of the form `|p| expr` only" % key)
+        body = "".join(t.text for t in toks[b2 + 1:cl]).strip()
+        body = re.sub(r"\s+", " ", body)
+        pname = toks[pn].text
+        # enclosing statement: back to the previous `;`, `{` or `}` at the same depth
+        s0 = start
+        depth = 0
+        k = start - 1
+        while k > it.body_open:
+            tx = toks[k].text if toks[k].kind == "punct" else ""
+            if tx in (")", "]", "}"):
+                if tx == "}" and depth == 0:
+                    break
+                depth += 1
+            elif tx in ("(", "[", "{"):
+                if depth == 0:
+                    break
+                depth -= 1
+            elif tx == ";" and depth == 0:
+                break
+            k -= 1
+        s0 = rustlex._next_sig_idx(toks, k)
+        v = "d11_%d" % ordinal
+        init, upd = ("true", "if !(%s) { %s = false; }" % (body, v)) if kind == "all" else ("false", "if %s { %s = true; }" % (body, v))
+        hoist = ("let mut %s: bool = %s; let mut %s_i: usize = 0; // D11\n while %s_i < %s.len()\n%s\n { let %s = &%s[%s_i]; %s %s_i += 1; }\n"
+                 % (v, init, v, v, recv, text, pname, recv, v, upd, v))
+        self.log.append("D11 %s: `%s.iter().%s(|%s| ..)` hoisted into an index loop (closure only reads; short-circuit dropped)" % (key, recv, kind, pname))
+        return [(toks[s0].start, toks[s0].start, hoist, 50000 + ordinal), (toks[start].start, toks[cl].end, v, 0)]
 
     def _d7(self, toks, it, param, key):
         """`param: impl AsRef<Self>` -> `param: &Self`, `param.as_ref()` -> `param`."""
